@@ -129,13 +129,12 @@ theorem C09_lexer_no_leak_partial (s : Str)
   split
   · intro e; cases e
   split
-  · simp only []; split <;> (intro e; cases e)
+  · split <;> (intro e; cases e)
   split
-  · simp only []; split <;> (intro e; cases e)
+  · split <;> (intro e; cases e)
   split
   · next n hd =>
     have := h n hd
-    simp only []
     split
     · omega
     · intro e; cases e
@@ -148,7 +147,7 @@ theorem C09_lexer_no_leak_partial (s : Str)
   split
   · intro e; cases e
   split
-  · simp only []; split <;> (intro e; cases e)
+  · split <;> (intro e; cases e)
   · intro e; cases e
 
 /-- … and one with 4301 nines is not -/
@@ -376,7 +375,7 @@ theorem C09_compiler_caches_grow (s : PState) (c : Call) (x : Nat) (h : x ∈ s.
 -- the lexer on a small MOF text: tokens, positions, lines
 example : (lexAll ("a = 0x1F;\n/* c\n */ \"s\\x41\" 08 @".toList.map Char.toNat)).map (fun t => (t.kind, t.pos, t.len, t.line)) =
     [(Kind.ident, 0, 1, 1), (Kind.literal, 2, 1, 1), (Kind.hex, 4, 4, 1), (Kind.literal, 8, 1, 1),
-     (Kind.stringValue, 19, 7, 3), (Kind.errOctal, 27, 2, 3), (Kind.errChar, 30, 1, 3)] := by decide
+     (Kind.stringValue, 19, 7, 3), (Kind.errOctal, 27, 2, 3), (Kind.errChar, 30, 1, 3)] := by decide +kernel
 example : InsideAt [10, 32, 64] 2 1 := ⟨2, by decide, by decide, by decide, by decide⟩
 example : posInside [10, 32, 64] (tokenErrorPos [10, 32, 64] ⟨.errChar, 2, 1, 2⟩) = true := by decide
 example : pragmaNamespace isIdChar ("root/cimv2".toList.map Char.toNat) = .ok (("root/cimv2".toList.map Char.toNat)) := by decide
@@ -384,8 +383,9 @@ example : pragmaNamespace isIdChar ("http://h/root".toList.map Char.toNat) = .er
 example : pragmaNamespace isIdChar ("///root".toList.map Char.toNat) = .ok (("root".toList.map Char.toNat)) := by decide
 example : mpCreateInstance (some 11) none true none = .ok () := by decide
 example : mpCreateClass { createClass := [some 4, none], hasServer := false, createNs := none, hasSuper := false,
-    superMof := none, nsInQualcache := true, qualsKnown := true, qualFiles := .ok (), depsOutcome := .ok (),
-    modifyClass := none } = .ok () := by decide
-example : (runCalls {} [.emb 1 2 {} false, .str 3 4 (some 5) { nestedFile := some (6, 7) } false]).file = some 6 := by decide
+                          superMof := none, nsInQualcache := true, qualsKnown := true, qualFiles := .ok (),
+                          depsOutcome := .ok (), modifyClass := none } = .ok () := by decide
+example : (runCalls ({} : PState) [Call.emb 1 2 ({} : Effect) false,
+    Call.str 3 4 (some 5) ({ nestedFile := some (6, 7) } : Effect) false]).file = some 6 := by decide
 
 end C09
